@@ -15,6 +15,7 @@
 //
 #include <errno.h>          // for errno
 #include <string.h>         // for strerror
+#include <algorithm>        // for replace
 #include <iomanip>          // for operator<<, setw, setfill, hex, uppercase
 #include <iostream>         // for operator<<, basic_ostream, ofstream, ostream
 #include <optional>         // for optional
@@ -63,6 +64,17 @@ namespace
 	     << "\n";
     inf_file.close();
     return inf_file.good();
+  }
+
+  // DFS file names can contain characters which are special to the
+  // host file system.  A '/' in a name (or directory) must not be
+  // allowed to select a host directory, otherwise a disc image could
+  // make us create files outside the destination directory.
+  std::string host_file_name(const std::string& dfs_name)
+  {
+    std::string result(dfs_name);
+    std::replace(result.begin(), result.end(), '/', '_');
+    return result;
   }
 
 class CommandExtractFiles : public DFS::CommandInterface
@@ -141,7 +153,7 @@ public:
 	  {
 	    output_basename = string(1, entry.directory()) + "." + rtrim(entry.name());
 	  }
-	const string output_body_file = dest_dir + output_basename;
+	const string output_body_file = dest_dir + host_file_name(output_basename);
 
 	std::ofstream outfile(output_body_file, std::ofstream::out);
 	if (!outfile.good())
